@@ -111,8 +111,9 @@ Fixpoint eval_td (ds : dataset) (g : graph) (c : sol) (p : alg) {struct p} : lis
         (* evalLazyJoin *)
         flat_map (fun a => map (fun b => merge b a) (eval_td ds g (thaw c a) p2)) (eval_td ds g c p1)
       else
-        (* a = evalPart(ctx, p1); b = set(evalPart(ctx, p2)); _join(a, b) *)
-        join_lists (eval_td ds g c p1) (dedup (eval_td ds g c p2))
+        (* a = evalPart(ctx, p1); b = list(evalPart(ctx, p2)); _join(a, b)
+           (a list since the repair 3512ad97; it was set(...), finding F-C04-3) *)
+        join_lists (eval_td ds g c p1) (eval_td ds g c p2)
   | LeftJoin p1vars p1 p2 e =>
       flat_map (fun a =>
         let c' := thaw c a in
@@ -155,6 +156,7 @@ Fixpoint eval_td (ds : dataset) (g : graph) (c : sol) (p : alg) {struct p} : lis
           end
       end
   | Distinct q => dedup (eval_td ds g c q)
+  | Slice n q => skipn (N.to_nat n) (eval_td ds g c q)     (* evalSlice: itertools.islice(res, start, None) *)
   end
 (* Expr.eval: [m] is the solution the expression sees, [full] the bindings of
    the context the solution came from (m.ctx.bindings, approximated by the
